@@ -247,6 +247,15 @@ def gen_c02(tier, seed):
             for _ in range(per):
                 s = r.choice(src_forms(r, sz, pick(sz), 0))
                 emit(base + sfx, [s[1]], s[2], s[3], base)
+        # SWAPxI: the operand and %r0 change places (operand forms include ones addressed through %r0 itself)
+        for _ in range(per):
+            d = r.choice(dst_forms(r, sz, pick(sz), 0))
+            regsx = dict(d[2]); regsx[0] = r.randrange(1 << 32)
+            emit('SWAP' + sfx + 'I', [d[1]], regsx, d[3], 'SWAP', readback=d[4][1] if d[4][0] == 'm' else None)
+            a = DATA + 0x100 + 4 * r.randrange(8)
+            o, base0 = r.choice([(regdef(0), a), (wdisp(0, 8), a - 8), (bdispdef(0, 4), DATA + 0x180 - 4)])
+            emit('SWAP' + sfx + 'I', [o], {0: base0}, [(DATA + 0x100, [r.randrange(256) for _ in range(0x40)]), (DATA + 0x180, be(a, 4))],
+                 'SWAP-via-r0', readback=a)
         for base in SRC2:
             for _ in range(per * 2):
                 s = r.choice(src_forms(r, sz, pick(sz), 0))
